@@ -49,7 +49,8 @@ def oracle(line: str, obs: Obs):
 
         def of_peer(c, p):
             # a connection of peer p: dialled to p, or identified as p by a successful exchange
-            return (c["dir"] == "S" and c["name"] == p) or (c["dir"] == "R" and c["ident"] == p)
+            # (host identities are case-insensitive names)
+            return (c["dir"] == "S" and c["name"].lower() == p.lower()) or (c["dir"] == "R" and c["ident"].lower() == p.lower())
         live = {k: c for k, c in conns.items() if c["live"] == "1" and c["state"] != "CLOSED"}
         for p, pd in peers.items():
             mine = [k for k, c in live.items() if of_peer(c, p)]
@@ -112,13 +113,17 @@ def scenarios(rng: random.Random, tier: str):
     out.append(nodegen.CONFIGS["basic"] + " | start | " + " | ".join(
         f"acc | rx {i} " + nodegen.cer("stranger.x", "4", n(), n()) for i in range(4)) + " | tick")
     out.append(nodegen.CONFIGS["out"] + " | start fail,fail | adv 6 | dial fail,ok | adv 6")
+    # a configured peer announcing its identity in another spelling
+    for spell in ("Peer1.X", "PEER1.X", "peer1.X"):
+        out.append(two + " | start | acc | rx 0 " + nodegen.cer(spell, "4", n(), n()) + " | tick | rx 0 " + nodegen.dwr(n(), n(), spell) +
+                   " | eof 0 | tick")
     # two ready peers of one application, one of them awaiting a DWA, then the other connection ends
     for closer in ("eof 0", "rerr 0 hard", "rx 0 " + nodegen.dpr(n(), n()) + " | eof 0", "eof 1"):
         for wait in ("adv 11", "adv 11 | rx 0 " + nodegen.dwa(n(), n()), "adv 11 | rx 1 " + nodegen.dwa(n(), n(), "peer2.x")):
             out.append(two + " | start | acc | rx 0 " + nodegen.cer("peer1.x", "4+3", n(), n(), extra=",acct=3") + " | acc | rx 1 " +
                        nodegen.cer("peer2.x", "4+3", n(), n(), extra=",acct=3") + f" | {wait} | {closer} | tick")
     alphabet = lambda c: [  # noqa: E731
-        "acc", f"rx {c} " + nodegen.cer(rng.choice(["peer1.x", "peer2.x"]), rng.choice(["4", "99", "4+3"]), n(), n()),
+        "acc", f"rx {c} " + nodegen.cer(rng.choice(["peer1.x", "peer2.x", "Peer1.X", "PEER2.x"]), rng.choice(["4", "99", "4+3"]), n(), n()),
         f"rx {c} " + nodegen.cer("stranger.x", "4", n(), n()), f"rx {c} " + nodegen.cea(2001, rng.choice(["peer1.x", "peer2.x"]), n(), n()),
         f"rx {c} " + nodegen.cea(5010, "peer1.x", n(), n()), f"rx {c} " + nodegen.dpr(n(), n()), f"rx {c} " + nodegen.dpa(n(), n()),
         f"eof {c}", f"rerr {c} hard", f"adv {rng.choice([1, 3, 4, 5, 6, 11])}", f"conn {c} ok", f"conn {c} fail",
